@@ -30,6 +30,9 @@ for d in args:
             det[cur]["summary"] = line.strip()[:300]
     if "PATCH DOES NOT APPLY" in r.stdout:
         det["error"] = r.stdout[-400:]
+    m2 = json.load(open(mp))            # re-read: confirm_seed.py may have written meanwhile
+    m2.setdefault("detection", {}).update(det)
+    m = m2
     json.dump(m, open(mp, "w"), indent=1, ensure_ascii=False)
     print(os.path.basename(d), {k: (v.get("exit"), len(v.get("violations", []))) for k, v in det.items() if isinstance(v, dict)},
           f"{time.time()-t0:.0f}s", flush=True)
